@@ -24,6 +24,8 @@ pub fn profiles04() -> Vec<Profile> {
         Profile { nodeops: true, actions: true, parts: true, skips: true, empty_rules: true, shuffle_decls: true, max_rules: 7, ..Profile::base("nodeops-actions") },
         Profile { pratt: true, max_rules: 3, depth: 2, ..Profile::base("pratt-small") },
         Profile { pratt: true, pratt_shared_ops: true, max_rules: 3, max_tokens: 4, depth: 2, ..Profile::base("pratt-shared-ops") },
+        // many rules in shuffled declaration order (analysis fixpoints need several rounds)
+        Profile { max_rules: 12, max_tokens: 8, depth: 2, pratt: true, parts: true, skips: true, shuffle_decls: true, ..Profile::base("big-shuffled") },
     ]
 }
 
